@@ -20,7 +20,7 @@ func kacInput() []byte {
 
 // H_C01_KeysAndCert: ReadKeysAndCert -> Bytes round trip; the solver enumerates every accepted (signing, crypto) pair, NULL certificates and excess payload.
 //
-//verif:props C01 C03
+//verif:props C01 C03 C04
 //verif:witness accepted
 func H_C01_KeysAndCert() {
 	in := kacInput()
@@ -40,7 +40,7 @@ func H_C01_KeysAndCert() {
 
 // H_C01_Destination: ReadDestination -> Bytes round trip (same free shape).
 //
-//verif:props C01 C03
+//verif:props C01 C03 C04
 //verif:witness accepted
 func H_C01_Destination() {
 	in := kacInput()
@@ -60,7 +60,7 @@ func H_C01_Destination() {
 
 // H_C01_RouterIdentity: ReadRouterIdentity -> Bytes round trip (same free shape).
 //
-//verif:props C01 C03
+//verif:props C01 C03 C04
 //verif:witness accepted
 func H_C01_RouterIdentity() {
 	in := kacInput()
@@ -80,7 +80,7 @@ func H_C01_RouterIdentity() {
 
 // H_C01_KeyCert: NewKeyCertificate -> Bytes round trip, free-form N in 0..14.
 //
-//verif:props C01 C03
+//verif:props C01 C03 C04
 //verif:witness accepted
 func H_C01_KeyCert() {
 	n := nd.IntRange(0, 14)
